@@ -271,6 +271,20 @@ def fixed_cases(tier):
         w = _witness('bad_scalar', ['solid', True, False])
         w['mut']['p'] = pp
         out.append(w)
+    # enumerated edge family: the lowest degrees (0, 1, 2, 3 through the `degree` mutation) x stack shapes whose surface system
+    # has 3, 1 and 1 unknowns (all solid; solid under a static ocean; an entirely static-liquid planet of 1 and 2 layers, where
+    # the degree-1 starting value 2(l-1) r^(l-1) vanishes identically and the 1x1 surface system is singular) x both
+    # nondimensionalize settings x raise_on_fail
+    sl, ll = ['solid', True, False], ['liquid', True, False]
+    for kinds in ([sl, sl], [sl, ll], [ll], [ll, ll]):
+        nk = len(kinds)
+        for pdeg in (0, 1, 2, 3):
+            for nd in (True, False):
+                out.append({'base': {'kinds': kinds, 'weights': [1.0] * nk, 'logrho_top': 3.0, 'rho_ratios': [1.5] * nk,
+                                     'logmu': [10.5] * nk, 'argmu': [0.1] * nk, 'logK': [11.0] * nk, 'n': [12] * nk, 'logR': 6.5,
+                                     'logr0': -2.0, 'l': 2, 'logfreq': -4.5, 'family': 'kamata', 'solve_for': ['tidal'],
+                                     'nondim': nd, 'method': 'RK45', 'logrtol': -7.0},
+                            'mut': {'kind': 'degree', 'p': pdeg}, 'raise_on_fail': bool(pdeg % 2) != nd, 'witness': True})
     return out
 
 
@@ -394,9 +408,10 @@ def evaluate(case):
                 'love shape %r, expected %r' % (rep.get('love_shape'), [nt, 3]))
         # a solve that did not produce numbers is an unsuccessful solve and must be reported as one: with success=True the Love
         # number k of every requested type is a finite number (h, l are NaN by design on a liquid surface; k never is)
-        # `input`: was a non-finite number (NaN, +-inf) put into the arguments?  (one root cause: inputs are not validated for
+        # `input`: was a non-finite number (NaN, +-inf), or one whose powers over/underflow (1e300, 1e-300), put into the arguments?  (one root cause: inputs are not validated for
         # finiteness, see KF-C06-nonfinite-input-success) - anything else that ends here is a different defect
-        inp = 'nonfinite' if shape.get('value') in ('nan', 'inf', '-inf') else ('finite_extreme' if shape.get('value') else 'clean')
+        v_ = shape.get('value')
+        inp = 'nonfinite' if v_ in ('nan', 'inf', '-inf') else 'finite_extreme' if v_ in ('1e300', '1e-300') else 'finite_invalid' if v_ else 'clean'
         c.check(rep.get('k_finite') is not False, dict({'clause': 'success_contract', 'what': 'k_not_finite', 'mut': mut, 'input': inp}, **shape),
                 'success=True but k is not finite for some requested type (message %r)' % rep.get('message'))
         c.check(bool(rep.get('message_ok')), {'clause': 'success_contract', 'what': 'message'}, 'message %r' % rep.get('message'))
